@@ -199,6 +199,17 @@ def run_case(case):
                             faces.append(G.ConvexPolygon((fpt(pts[i]), fpt(pts[j]), fpt(pts[l]))))
                             return G.ConvexPolyhedron(tuple(faces))
             raise ValueError("no internal triangle")  # every triple on a face (cannot happen for a 3-D body)
+        elif mode == "swap-internal":
+            # one face replaced by a polygon through the interior whose edges are all edges of the body (e.g. the
+            # equator of a bipyramid): V, E and F - and the total number of face sides - are those of the closed body
+            cyc = internal_cycle(K)
+            if cyc is None:
+                del faces[k % len(faces)]
+            else:
+                # drop a face that shares an edge with the cycle
+                cand = [j for j, (_n, _b, idx) in enumerate(K[2]) if len(set(idx) & set(cyc)) >= 2]
+                del faces[cand[k % len(cand)] if cand else k % len(faces)]
+                faces.append(G.ConvexPolygon(tuple(fpt(K[1][i]) for i in cyc)))
         elif mode == "two-opposite":
             # two disjoint faces (no shared vertex): V - E + F = 2 holds for two separate polygons of equal size
             f0 = K[2][k % len(K[2])][2]
@@ -314,10 +325,23 @@ def polygon_collinear(draw):
 
 @st.composite
 def polygon_nonplanar(draw):
-    g = draw(GB.polygon(3, 6))
+    g = draw(st.one_of(GB.polygon(3, 6), GB.polygon(6, 8)))
     n = tuple(F(c) for c in X.primitive(X.poly_normal(g[1])))
     pts = list(g[1])
     off = draw(st.sampled_from((F(1, 64), F(-1, 64), F(1, 8), F(1), F(-1, 2))))
+    if len(pts) >= 4 and draw(st.booleans()):
+        # one vertex of the cycle lifted, handed over at a chosen position of the input (the others keep their order
+        # up to a rotation): a validation that trusts particular input positions must still see it
+        i = draw(st.integers(0, len(pts) - 1))
+        lifted = X.add(pts[i], X.mul(off, n))
+        rest = pts[:i] + pts[i + 1:]
+        r = draw(st.integers(0, len(rest) - 1))
+        rest = rest[r:] + rest[:r]
+        if draw(st.booleans()):
+            rest.reverse()
+        pos = draw(st.integers(0, len(rest)))
+        rest.insert(pos, lifted)
+        return ("polygon/nonplanar", tuple(rest))
     # an extra vertex off the plane (over an exterior in-plane point so the projection stays convex-ish), or lift one
     if draw(st.booleans()):
         i = draw(st.integers(0, len(pts) - 1))
@@ -398,10 +422,48 @@ def pyramid_bad(draw):
     return ("pyramid/apex-in-plane", tuple(g[1]), apex, draw(bumps))
 
 
+def internal_cycle(K):
+    """vertex indices of a planar convex cycle of 3 or 4 hull edges that is not a face (None if the body has none)"""
+    pts = K[1]
+    faces = [set(idx) for _n, _b, idx in K[2]]
+    ed = set()
+    for _n, _b, idx in K[2]:
+        for a_, b_ in zip(idx, list(idx[1:]) + [idx[0]]):
+            ed.add(frozenset((a_, b_)))
+    n = len(pts)
+    adj = lambda i, j: frozenset((i, j)) in ed
+    for i in range(n):
+        for j in range(i + 1, n):
+            if not adj(i, j):
+                continue
+            for l in range(j + 1, n):
+                if adj(j, l) and adj(i, l) and not any({i, j, l} <= f for f in faces):
+                    return (i, j, l)
+    for i in range(n):
+        for j in range(n):
+            if j == i or not adj(i, j):
+                continue
+            for l in range(n):
+                if l in (i, j) or not adj(j, l) or adj(i, l):
+                    continue
+                for m in range(n):
+                    if m in (i, j, l) or not adj(l, m) or not adj(m, i) or adj(j, m):
+                        continue
+                    q = [pts[i], pts[j], pts[l], pts[m]]
+                    nrm = X.cross(X.sub(q[1], q[0]), X.sub(q[2], q[0]))
+                    if X.dot(nrm, X.sub(q[3], q[0])) != 0 or any({i, j, l, m} <= f for f in faces):
+                        continue
+                    # convex in this cyclic order: all turns have the same sign
+                    sg = [X.dot(nrm, X.cross(X.sub(q[(t + 1) % 4], q[t]), X.sub(q[(t + 2) % 4], q[(t + 1) % 4]))) for t in range(4)]
+                    if all(x > 0 for x in sg) or all(x < 0 for x in sg):
+                        return (i, j, l, m)
+    return None
+
+
 @st.composite
 def faces_bad(draw):
     K = draw(GB.polyhedron())
-    mode = draw(st.sampled_from(("open", "open2", "duplicate", "extra-internal", "flat-one", "flat-two", "empty", "two-opposite", "open+detached")))
+    mode = draw(st.sampled_from(("open", "open2", "duplicate", "extra-internal", "flat-one", "flat-two", "empty", "two-opposite", "open+detached", "swap-internal", "swap-internal")))
     return ("polyhedron/faces", K, mode, draw(st.integers(0, 20)))
 
 
